@@ -195,12 +195,20 @@ def h_debuglink(ctx):
         img.section('.eh_frame', sh_type=1, sh_offset=o2, sh_size=4)
         img.add_shstrtab()
         data_main = img.build()
-    data_dbg, _ = _image(ctx, cls, little, 'plain', info, ab)
+    # composition of containers: the linked debug file may itself keep part of its data in a supplementary file (dwz)
+    sup = cfg.get('dbg_sup')
+    sup_extra = None
+    if sup == 'gnu_debugaltlink':
+        sup_extra = [('.gnu_debugaltlink', [0x53, 0] + [7] * 20)]
+    elif sup == 'debug_sup':
+        sup_extra = [('.debug_sup', enc.enc_int(5, 2, little) + [0] + [0x53, 0] + [0])]
+    data_dbg, _ = _image(ctx, cls, little, 'plain', info, ab, extra=sup_extra)
+    data_sup, _ = _image(ctx, cls, little, 'plain', info, ab)
     calls = []
 
     def loader(path):
         calls.append(path)
-        return ctx.stream(data_dbg)
+        return ctx.stream(data_dbg if len(calls) == 1 else data_sup)
     ctx.use_crc_model(computed)
     try:
         elf = EF.ELFFile(ctx.stream(data_main), stream_loader=loader if cfg.get('loader', True) else None)
@@ -219,8 +227,13 @@ def h_debuglink(ctx):
         ctx.outcome('ok')
         if should_follow:
             ctx.check('debuglink/followed-only-when-checksum-matches', stored == computed)
-            ctx.check_eq('debuglink/loader-called-with-the-encoded-name', calls, [ctx.mkbytes(fname)])
+            ctx.check_eq('debuglink/loader-called-with-the-encoded-name', calls[:1], [ctx.mkbytes(fname)])
             ctx.check_eq('debuglink/linked-content', list(di.debug_info_sec.stream.getvalue()), list(info))
+            if sup:
+                ctx.check_eq('debuglink/linked-file-with-%s/loader-calls' % sup, calls[1:], [b'S'])
+                ctx.check('debuglink/linked-file-with-%s/supplementary-attached' % sup, di.supplementary_dwarfinfo is not None)
+            else:
+                ctx.check_eq('debuglink/one-loader-call', len(calls), 1)
         else:
             ctx.check_eq('debuglink/not-followed/no-loader-call', calls, [])
             if cfg.get('own_info'):
@@ -289,7 +302,9 @@ HARNESSES = [
       desc='has_dwarf_info(strict) over the 2^3 presence combinations of .debug_info / .zdebug_info / .eh_frame'),
     H('h11_4_debuglink', h_debuglink,
       lambda tier: [dict(elfclass=c, little=l, namelen=n, follow=f, loader=ld, own_info=o) for c, l in ENVS[:2] for n in ((1, 3, 4, 6) if tier == 'quick' else range(1, 13))
-                    for (f, ld, o) in ((True, True, False), (False, True, False), (True, False, False), (True, True, True))], expect=('ok', 'rejected'),
+                    for (f, ld, o) in ((True, True, False), (False, True, False), (True, False, False), (True, True, True))] +
+                   [dict(elfclass=c, little=l, namelen=2, follow=True, loader=True, own_info=False, dbg_sup=k) for c, l in ENVS[:2] for k in ('gnu_debugaltlink', 'debug_sup')],
+      expect=('ok', 'rejected'),
       desc='.gnu_debuglink: file name of every length residue (padding to 4) and stored checksum (symbolic) parsed; the link is followed iff follow_links, a loader exists and the file has no '
            'debug info of its own; followed iff stored == computed CRC (both symbolic), ELFError otherwise; loader called with the encoded name'),
     H('h11_5_suplink', h_suplink, lambda tier: [dict(kind=k, little=l, namelen=n, follow=f, loader=ld) for k in ('debug_sup', 'gnu_debugaltlink') for l in (True, False) for n in (1, 4)
